@@ -8,6 +8,7 @@
 package c09
 
 import (
+	"strings"
 	"time"
 
 	"github.com/ory/fosite"
@@ -38,6 +39,7 @@ type st struct {
 	elapsed time.Duration   // total clock advance so far
 	issued  []time.Duration // value of elapsed at each issuance
 	covers  []string
+	jwt     bool // access tokens are JWTs (model signer)
 }
 
 func (s *st) cover(label string) { s.covers = append(s.covers, label) }
@@ -60,7 +62,11 @@ func (s *st) addPair(g int, resp fosite.AccessResponder) {
 
 // codeGrant: authorization code flow, subject peter, scopes and audience granted as requested.
 func (s *st) codeGrant(client string, scopes []string) int {
-	code, err := s.w.AuthorizeCodeAud(client, scopes, []string{aud})
+	var sess fosite.Session = world.NewSession("peter")
+	if s.jwt {
+		sess = world.NewJWTSession("peter")
+	}
+	code, err := s.w.AuthorizeCodeSession(client, scopes, []string{aud}, sess)
 	zz.Assume(err == nil)
 	resp, err := s.w.Redeem(client, code)
 	zz.Assume(err == nil)
@@ -72,7 +78,11 @@ func (s *st) codeGrant(client string, scopes []string) int {
 
 // ccGrant: client credentials, no subject, no refresh token, no audience.
 func (s *st) ccGrant(client string, scopes []string) int {
-	resp, err := s.w.ClientCredentials(client, scopes)
+	var sess fosite.Session = world.NewSession("")
+	if s.jwt {
+		sess = world.NewJWTSession("")
+	}
+	resp, err := s.w.ClientCredentialsSession(client, map[string]string{"c1": world.Secret1, "c2": world.Secret2}[client], scopes, sess)
 	zz.Assume(err == nil)
 	s.g = append(s.g, &grant{client: client, subject: "", scopes: scopes})
 	s.gen = append(s.gen, 0)
@@ -106,17 +116,17 @@ func (s *st) rotate(g int) {
 	s.addPair(g, resp)
 }
 
-// advance moves the clock by a symbolic duration that keeps 2s clear of every expiry instant of
+// advance moves the clock by a symbolic duration that keeps 4s clear of every expiry instant of
 // every token issued so far (boundary behaviour is C07's subject; native replays have no
 // sub-second clock fidelity).
 func (s *st) advance() {
 	d := time.Duration(zz.Int("advance", 0, int64(45*24*time.Hour)))
 	for _, o := range s.issued {
 		for _, life := range []time.Duration{atLife, rtLife} {
-			zz.Assume(zz.Or(s.elapsed+d < o+life-2*time.Second, s.elapsed+d > o+life+2*time.Second))
+			zz.Assume(zz.Or(s.elapsed+d < o+life-4*time.Second, s.elapsed+d > o+life+4*time.Second))
 		}
 	}
-	zz.Note("clock advances keep 2s clear of token expiry instants (boundary behaviour: C07)")
+	zz.Note("clock advances keep 4s clear of token expiry instants (boundary behaviour: C07)")
 	zz.Advance(d)
 	s.elapsed += d
 }
@@ -181,6 +191,19 @@ func (s *st) pick() (val string, t *world.Tok, label string) {
 	n := len(s.l.Toks)
 	k := zz.Choice("tok", n+3)
 	a, r := s.latest(0, fosite.AccessToken), s.latest(0, fosite.RefreshToken)
+	if s.jwt && k >= n {
+		other := s.latest(1, fosite.AccessToken)
+		switch k {
+		case n:
+			// header and payload of one JWT in front of the signature of another
+			i := len(a.Val) - len(world.JWTSigOf(a.Val))
+			return a.Val[:i] + world.JWTSigOf(other.Val), nil, "mutation:swapped-parts"
+		case n + 1:
+			return a.Val[:len(a.Val)-1], nil, "mutation:truncated"
+		default:
+			return "eyJtb2RlbCI6MX0." + zz.StringEx("garbage", 6, ".") + ".bW9kZWxzaWc", nil, "mutation:garbage"
+		}
+	}
 	switch {
 	case k < n:
 		return s.l.Toks[k].Val, s.l.Toks[k], ""
@@ -227,10 +250,10 @@ func (s *st) expect(t *world.Tok, disableRT bool) int {
 }
 
 // ZZ_C09_truth: Fosite.IntrospectToken against the ledger.
-func truth(historyKinds, nStrategies, maxScopes int) {
+func truth(jwt bool, historyKinds, nStrategies, maxScopes int) {
 	disableRT := zz.Choice("disable-refresh-validation", 2) == 1
 	strat := zz.Choice("scope-strategy", nStrategies)
-	s := &st{w: world.NewX(world.XOptions{Tweak: func(cfg *fosite.Config) {
+	s := &st{jwt: jwt, w: world.NewX(world.XOptions{JWTAccess: jwt, Tweak: func(cfg *fosite.Config) {
 		cfg.DisableRefreshTokenValidation = disableRT
 		cfg.ScopeStrategy = strategies[strat]
 	}}), l: &world.Ledger{}}
@@ -305,9 +328,18 @@ func truth(historyKinds, nStrategies, maxScopes int) {
 
 func ZZ_C09_truth() {
 	if zz.Thorough() {
-		truth(8, 3, 2)
+		truth(false, 8, 3, 2)
 	} else {
-		truth(5, 2, 1)
+		truth(false, 5, 2, 1)
+	}
+}
+
+// ZZ_C09_truthjwt: the same with JWT access tokens (oauth2.DefaultJWTStrategy over the model signer, A-sig).
+func ZZ_C09_truthjwt() {
+	if zz.Thorough() {
+		truth(true, 8, 1, 2)
+	} else {
+		truth(true, 5, 1, 1)
 	}
 }
 
@@ -431,5 +463,71 @@ func ZZ_C09_caller() {
 		caller(4, true)
 	} else {
 		caller(3, false)
+	}
+}
+
+// ---- response writer
+
+// ZZ_C09_writer: what WriteIntrospectionResponse puts on the wire: for an inactive token nothing but
+// {"active":false}; for an active one the real client, subject, scopes, audience and username even when the
+// session carries extra claims named like the reserved ones. (JSON encoding: structural model of agentG,
+// enabled by option c20.structural; natively the real encoder runs.)
+func ZZ_C09_writer() {
+	zz.SetOption("c20.structural", 1)
+	s := &st{w: world.NewX(world.XOptions{}), l: &world.Ledger{}}
+	evil := "evil-sub"
+	sess := world.NewSession("peter")
+	sess.Extra = map[string]interface{}{
+		"client_id": "evil-client", "sub": evil, "scope": "admin", "aud": "evil-aud", "username": "root",
+		"exp": 1, "iat": 1, "custom": "kept",
+	}
+	cc := zz.Choice("grant", 2) == 1 // 0: code grant of c1 (subject peter); 1: client credentials of c2 (no subject, no audience)
+	var resp fosite.AccessResponder
+	var err error
+	owner, inspector := "c1", world.BasicHeader("c2", world.Secret2)
+	if cc {
+		owner, inspector = "c2", world.BasicHeader("c1", world.Secret1)
+		sess.Subject, sess.Username = "", ""
+		resp, err = s.w.ClientCredentialsSession("c2", world.Secret2, []string{"mail"}, sess)
+	} else {
+		code, aerr := s.w.AuthorizeCodeSession("c1", []string{"offline", "photos"}, []string{aud}, sess)
+		zz.Assume(aerr == nil)
+		resp, err = s.w.Redeem("c1", code)
+	}
+	zz.Assume(err == nil)
+	at := resp.GetAccessToken()
+	revoked := zz.Choice("history", 2) == 1
+	if revoked {
+		zz.Assume(s.w.Revoke(owner, "", at, "") == nil)
+	}
+	ir, _ := s.w.IntrospectHTTP(at, zz.String("hint", 14), "", inspector)
+	rec := world.NewRecorder()
+	s.w.Provider.WriteIntrospectionResponse(s.w.Ctx, rec, ir)
+	body := string(rec.Body)
+	zz.Observe("active", ir.IsActive())
+	if revoked {
+		zz.Cover("writer:inactive", true)
+		zz.Assert(!ir.IsActive(), "revoked token is inactive at the endpoint")
+		zz.Assert(body == "{\"active\":false}\n", "inactive token: nothing but active=false is written")
+	} else {
+		zz.Cover("writer:active", true)
+		zz.Assert(ir.IsActive(), "live token is active at the endpoint")
+		has := func(frag string) bool { return strings.Contains(body, frag) }
+		zz.Assert(has("\"active\":true"), "active token: active=true is written")
+		zz.Assert(has("\"custom\":\"kept\""), "active token: non-reserved extra claim is kept")
+		zz.Assert(!has("evil-client") && !has("admin") && !has("evil-aud") && !has("root"), "reserved claims are not overridden by session extras")
+		if cc {
+			zz.Cover("writer:active-no-subject", true)
+			zz.Assert(has("\"client_id\":\"c2\""), "active token: real client is written")
+			zz.Assert(has("\"scope\":\"mail\""), "active token: granted scopes are written")
+			zz.Assert(!has(evil) && !has("\"sub\"") && !has("\"username\"") && !has("\"aud\""), "a token without subject, username, audience: none is written, session extras of that name do not fill in")
+			return
+		}
+		zz.Assert(has("\"client_id\":\"c1\""), "active token: real client is written")
+		zz.Assert(has("\"sub\":\"peter\""), "active token: real subject is written")
+		zz.Assert(has("\"scope\":\"offline photos\""), "active token: granted scopes are written")
+		zz.Assert(has("\"aud\":[\""+aud+"\"]"), "active token: granted audience is written")
+		zz.Assert(has("\"username\":\"peter\""), "active token: real username is written")
+		zz.Assert(!has(evil), "subject is not overridden by a session extra")
 	}
 }
